@@ -65,6 +65,28 @@ def coord_lipschitz(case):
     return (X ** 2).sum(0) / n
 
 
+def global_lipschitz(case):
+    """exact global curvature bound of the loss in w (the step FISTA uses is 1 / (its estimate of this)); None = unknown.
+    For sparse X the library's power-method value is <= this one (C09), i.e. its step is >= 1/L: since the
+    prox-gradient residual of a convex problem is non-decreasing in the step, a residual <= tol at the library's
+    step implies the residual at 1/L is <= tol as well (one-sided, sound)."""
+    X = np.array(case["X"], float)
+    n = X.shape[0]
+    d = case["datafit"]
+    nm = d["name"] if d else "Quadratic"
+    if nm == "QuadraticSVC":
+        y = np.array(case["y"], float)
+        return float(np.linalg.norm(y[:, None] * X, 2) ** 2)
+    if nm == "WeightedQuadratic":
+        sw = np.array(d["sample_weights"], float)
+        return float(np.linalg.norm(np.sqrt(sw)[:, None] * X, 2) ** 2 / sw.sum())
+    if nm == "Logistic":
+        return float(np.linalg.norm(X, 2) ** 2 / (4 * n))
+    if nm in ("Quadratic", "Huber"):
+        return float(np.linalg.norm(X, 2) ** 2 / n)
+    return None
+
+
 def null_gradient(case):
     """gradient of the loss at w = 0, b = 0 (scale for alpha)"""
     X = np.array(case["X"], float)
@@ -385,11 +407,15 @@ def scalar_certificate(case, w_full, strategy="subdiff", impl_pen=None, eta_buf=
         obj = loss.value(y, eta) + pen.value(w)
         lips = None
     p = len(w)
+    if case["solver"]["name"] == "FISTA" and strategy != "subdiff":
+        lips = np.full(p, global_lipschitz(case))     # one global step for every coordinate
     if strategy == "subdiff":
         v = np.array([pen.sdist(w[j], g[j], j) for j in range(p)])
     else:
         if lips is None:
-            if case["solver"]["name"] == "ProxNewton":
+            if case["solver"]["name"] == "FISTA":
+                lips = np.full(len(w), global_lipschitz(case))
+            elif case["solver"]["name"] == "ProxNewton":
                 if isinstance(loss, R.Cox):     # documented diagonal upper bound of the Cox Hessian
                     hdiag = r + y[:, 1] / len(y)
                 elif isinstance(loss, R.SqrtQuadratic):   # documented bound 1 / ||y - Xw||
